@@ -51,6 +51,11 @@ var c17Selects = []string{
 	`SELECT a, b, top(value, host, 2) FROM cpu`,
 	`SELECT v1, v2, v3, v4, bottom(value, host, region, 3) FROM cpu GROUP BY time(1m)`,
 	`SELECT top(value, host, 2), usage, idle FROM cpu WHERE time > now() - 1h`,
+	// a wildcard / regex as the direct first argument of every function that has a type filter of its own, in one statement
+	`SELECT holt_winters(*, 10, 4), count(*), min(*), sum(/./), holt_winters_with_fit(*, 10, 4), mean(*), distinct(*), percentile(*, 90) FROM cpu GROUP BY time(1m), host`,
+	`SELECT max(*), holt_winters(/a|v/, 2, 2), first(*), mode(*) FROM cpu, mem WHERE time > now() - 1h GROUP BY time(5m), host, region`,
+	// "~": keywords written in a mixed case that differs from case to case (see caseSalt)
+	`~select value, mean(usage) from cpu where host = 'a' and time > now() - 1h group by time(1m), host order by time desc limit 3 offset 1`,
 }
 
 var c17Aux = []string{
@@ -62,6 +67,8 @@ var c17Aux = []string{
 	`ALTER RETENTION POLICY cpu ON db DURATION 1d REPLICATION 2 DEFAULT`,
 	`SHOW MEASUREMENTS WITH MEASUREMENT =~ /c.*/ WHERE host = 'cpu'`,
 	`DROP SERIES FROM cpu WHERE host = 'a'`,
+	`~show tag values on db from cpu with key in (a, b) where x = 'y' limit 3`,
+	`~create retention policy cpu on db duration 1d replication 2 shard duration 1h default`,
 }
 
 var c17Exprs = []string{
@@ -118,6 +125,18 @@ func (c17Mapper) MapType(m *influxql.Measurement, field string) influxql.DataTyp
 	return influxql.Unknown
 }
 
+// c17SharedMapper hands out the SAME maps on every call and to every goroutine (a schema cache).  The package
+// only reads what a FieldMapper gives it; a write into these maps is a data race with every other reader.
+var c17SharedFields = map[string]influxql.DataType{"value": influxql.Float, "usage": influxql.Float, "idle": influxql.Integer,
+	"v": influxql.Float, "a": influxql.Integer, "b": influxql.Boolean, "c1": influxql.String, "cnt": influxql.Unsigned}
+var c17SharedDims = map[string]struct{}{"host": {}, "region": {}, "t a g": {}}
+
+type c17SharedMapper struct{ c17Mapper }
+
+func (c17SharedMapper) FieldDimensions(m *influxql.Measurement) (map[string]influxql.DataType, map[string]struct{}, error) {
+	return c17SharedFields, c17SharedDims, nil
+}
+
 // ---------------------------------------------------------------- objects
 
 // c17Obj is the (possibly shared) AST: a Query of two statements, the second a SELECT.
@@ -134,7 +153,33 @@ type c17In struct{ stmt, aux, n int }
 
 func (in c17In) s() string { return fmt.Sprintf("k%d", in.n) }
 func (in c17In) salted(t string) string {
+	if strings.HasPrefix(t, "~") {
+		t = caseSalt(t[1:], in.n)
+	}
 	return strings.ReplaceAll(t, "cpu", "cpu_"+in.s())
+}
+
+// caseSalt writes every keyword of a lower-case statement text in a mixed case derived from n, so that each case
+// spells the keywords as no case before it did (a table keyed by spelling misses).  Names and literals stay as they are.
+var c17KwWords = map[string]bool{"select": true, "from": true, "where": true, "group": true, "by": true, "order": true, "desc": true,
+	"limit": true, "offset": true, "and": true, "show": true, "tag": true, "values": true, "on": true, "with": true, "key": true, "in": true,
+	"create": true, "retention": true, "policy": true, "duration": true, "replication": true, "shard": true, "default": true}
+
+func caseSalt(t string, n int) string {
+	words := strings.Split(t, " ")
+	for wi, w := range words {
+		if !c17KwWords[w] {
+			continue
+		}
+		b := []byte(w)
+		for j := range b {
+			if ((n+1)>>uint((j+wi)%12))&1 == 1 {
+				b[j] = b[j] - 'a' + 'A'
+			}
+		}
+		words[wi] = string(b)
+	}
+	return strings.Join(words, " ")
 }
 func (in c17In) selectText() string { return in.salted(c17Selects[in.stmt%len(c17Selects)]) }
 func (in c17In) auxText() string    { return in.salted(c17Aux[in.aux%len(c17Aux)]) }
@@ -368,7 +413,11 @@ var c17Ops = []c17Op{
 		return s.String() + c17J(project(s))
 	}},
 	{"RewriteFields", true, func(o *c17Obj, in c17In) string {
-		s, err := o.sel.RewriteFields(c17Mapper{})
+		var fm influxql.FieldMapper = c17Mapper{}
+		if in.n%2 == 1 {
+			fm = c17SharedMapper{} // a schema cache: the same maps for every call and goroutine
+		}
+		s, err := o.sel.RewriteFields(fm)
 		if err != nil {
 			return "err:" + err.Error()
 		}
